@@ -115,6 +115,14 @@ class Marker(Exception):
     """the exception a test body raises"""
 
 
+class MarkerB(BaseException):
+    """… and every second time one that is not an `Exception` (KeyboardInterrupt-like)"""
+
+
+MARKERS = (Marker, MarkerB)
+_marker_rot = [0]
+
+
 class Broken(Exception):
     def __init__(self, tag):
         self.tag = tag
@@ -237,7 +245,8 @@ def run_nodes(nodes, cx):
             run_op(nd[1], cx)
         elif nd[0] == "raise":
             cx.rec("raise", "ok", False)
-            raise Marker()
+            _marker_rot[0] += 1
+            raise (Marker if _marker_rot[0] % 2 else MarkerB)()
         else:
             _, guarded, body = nd
             if cx.broken:
@@ -250,7 +259,7 @@ def run_nodes(nodes, cx):
                     cx.rec("enter", "ok", False)
                     run_nodes(body, cx)
                 cx.rec("exit", "ok", False)
-            except Marker:
+            except MARKERS:
                 # the `finally` of subshell() ran and did not raise: the same exception travels on
                 cx.rec("exit", "ok", False)
                 if not guarded:
@@ -290,7 +299,7 @@ def run_case(line, seed):
             try:
                 run_nodes(nodes, cx)
                 end = "end:normal"
-            except Marker:
+            except MARKERS:
                 end = "end:raised:user"
             except Broken as b:
                 end = "end:raised:" + b.tag
